@@ -11,12 +11,24 @@ import (
 
 func init() {
 	runners["C05"] = func(t *testing.T, c explore.Case) explore.Result {
+		if strings.HasPrefix(c.Unit, "lin;") {
+			if linReplays["C05"] == nil {
+				return explore.Result{Viol: "HARNESS: serializability tier not built"}
+			}
+			return linReplays["C05"](t, c)
+		}
 		if strings.HasPrefix(c.Unit, "maint;") {
 			return runMaint(t, c, "C05")
 		}
 		return runTable(t, c, "C05")
 	}
 	runners["C06"] = func(t *testing.T, c explore.Case) explore.Result {
+		if strings.HasPrefix(c.Unit, "lin;") {
+			if linReplays["C06"] == nil {
+				return explore.Result{Viol: "HARNESS: serializability tier not built"}
+			}
+			return linReplays["C06"](t, c)
+		}
 		if strings.HasPrefix(c.Unit, "maint;") {
 			return runMaint(t, c, "C06")
 		}
@@ -51,6 +63,9 @@ func tableExplore(t *testing.T, prop string) {
 	}
 	sort.Strings(starts)
 	idx := 0
+	if lt := linTiers[prop]; lt != nil {
+		lt(t, w, &idx)
+	}
 	for _, ph := range phases {
 		w.Bound("depth_"+ph.name, ph.depth)
 		for _, cn := range cfgs {
